@@ -22,6 +22,13 @@ CLAIMED = {
         "Trusted: Coq kernel; world model hand-written (Model/World.v, Model/Instance.v) and tied to main.py/ruler.py/utils.py by the sampled correspondence; frame condition 'a parse writes instance state only via Ruler.__cache__' is tested dynamically, not proved from source; extraction+driver (sample re-run in-kernel).",
         "DESIGN.md §3 C12",
     ),
+    "C14": (
+        "proof",
+        "Coq proof (induction over arbitrary reset_rules bodies incl. nested blocks; simulation lemma for failed parses) on the MarkdownIt facade model + history correspondence + exhaustive-per-document fault injection at every user-callback invocation",
+        "Theorems: for ANY body of management calls (nested blocks, raising anywhere) reset_rules leaves on exit exactly the active rule set in force on entry and propagates the body's own exception (C14_reset_rules_restores/_propagates, names unique per chain); a parse/render that fails at any point has touched the instance only through getRules, so its configuration proper is unchanged, caches stay coherent and every later call behaves as if the failed call never happened (C14_failed_parse_leaves_instance, C14_after_failure_same_behaviour); rules are never lost (C14_rules_never_lost); the generator without try/finally is refuted in Coq. Each run: reset_rules histories on the real MarkdownIt vs the model step by step; fault injection raising 5 exception types (incl. a BaseException) at the k-th invocation of every rule of all four chains, every render rule and highlight, then snapshot + probe comparison against a fresh instance and against outputs recorded before any failure.",
+        "Trusted: Coq kernel; facade model tied to main.py/ruler.py by sampled correspondence; 'a parse writes no instance state except Ruler.__cache__' is tested by the fault injector (all crash points of the sampled documents), not proved from source; extraction+driver (sample re-run in-kernel).",
+        "DESIGN.md §3 C14",
+    ),
 }
 
 NOT_YET = {}
